@@ -310,6 +310,11 @@ class AST2SCFGTransformer:
         """
         for node in tree:
             self.handle_ast_node(node)
+            # Anything after a return, break or continue in the same
+            # statement list is unreachable and must not be emitted into the
+            # block (the block is sealed according to its last instruction).
+            if isinstance(node, (ast.Return, ast.Break, ast.Continue)):
+                break
 
     def handle_ast_node(self, node: type[ast.AST] | ast.stmt) -> None:
         """Dispatch an AST node to handle."""
